@@ -7,6 +7,7 @@ import struct
 import zipfile
 
 from dsim.container import write_container
+from dsim.iwa_indep import Segment as iwa_Segment
 from dsim.pkg import Package
 
 KINDS = ["member_order", "compression", "form", "rechunk", "list_perm", "offsets", "empty_row_headers", "record_order"]
@@ -120,6 +121,68 @@ def apply_relayout(path: str, spec: dict) -> dict:
                 n_rows += 1
         done["tile_lists_permuted"] = n_tiles
         done["tiles_with_row_records_permuted"] = n_rows
+        # the row records of one tile spread over TWO Tile objects that carry the same tile id (each record still
+        # declares its own index)
+        n_split = 0
+        next_id = max(pkg.objects) + 1000
+        for t in pkg.table_models():
+            if rng.random() >= 0.5:
+                continue
+            refs = t.msg.base_data_store.tiles.tiles
+            if not refs:
+                continue
+            ref = refs[rng.randrange(len(refs))]
+            o = pkg.objects.get(ref.tile.identifier)
+            if o is None or o.type_name != "TST.Tile" or len(o.msg.rowInfos) < 2 or len(o.seg.payloads) != 1:
+                continue
+            infos = [x.SerializeToString() for x in o.msg.rowInfos]
+            pick = rng.choice(["halves", "evenodd", "random"])
+            if pick == "halves":
+                mine = set(range(len(infos) // 2))
+            elif pick == "evenodd":
+                mine = set(range(0, len(infos), 2))
+            else:
+                mine = {i for i in range(len(infos)) if rng.random() < 0.5} or {0}
+                if len(mine) == len(infos):
+                    mine.discard(len(infos) - 1)
+            import copy as _copy
+
+            from dsim.pkg import Obj
+
+            cls = type(o.msg.rowInfos[0])
+            twin_msg = type(o.msg)()
+            twin_msg.CopyFrom(o.msg)
+            del o.msg.rowInfos[:]
+            del twin_msg.rowInfos[:]
+            for i, raw in enumerate(infos):
+                x = cls()
+                x.ParseFromString(raw)
+                (o.msg if i in mine else twin_msg).rowInfos.append(x)
+            o.msg.numrows = len(o.msg.rowInfos)
+            twin_msg.numrows = len(twin_msg.rowInfos)
+            o.commit()
+            info2 = _copy.deepcopy(o.seg.info)
+            info2.identifier = next_id
+            seg2 = iwa_Segment(info2, [twin_msg.SerializeToString()])
+            pkg.streams[o.member].append(seg2)
+            pkg.objects[next_id] = Obj(next_id, o.member, seg2, o.type_id)
+            new_ref = type(ref)()
+            new_ref.CopyFrom(ref)
+            new_ref.tile.identifier = next_id
+            pos = rng.randrange(len(refs) + 1)
+            raws = [x.SerializeToString() for x in refs]
+            raws.insert(pos, new_ref.SerializeToString())
+            del refs[:]
+            for raw in raws:
+                x = type(ref)()
+                x.ParseFromString(raw)
+                refs.append(x)
+            t.commit()
+            touched_members.add(o.member)
+            touched_members.add(t.member)
+            next_id += 1
+            n_split += 1
+        done["tiles_split_in_two"] = n_split
 
     if "empty_row_headers" in kinds or "header_order" in kinds:
         added = reordered = 0
